@@ -968,34 +968,42 @@ impl CommitEnv for LsmCommitEnv {
 
 	/// Apply batch to memtable with retry on arena full.
 	fn apply(&self, batch: &Batch) -> Result<()> {
-		// Try to add to current memtable
-		let result = {
-			let active_memtable = self.core.active_memtable.read()?;
-			active_memtable.add(batch)
-		};
-
-		match result {
-			Ok(()) => Ok(()),
-			Err(Error::ArenaFull) => {
-				// Arena is full - rotate memtable and retry
-				log::debug!("apply: arena full, rotating memtable");
-				#[cfg(surrealkv_verif)]
-				crate::verif::yp("apply:arena_full");
-
-				self.core.rotate_memtable()?;
-				#[cfg(surrealkv_verif)]
-				crate::verif::yp("apply:rotated");
-
-				// Schedule background flush
-				if let Some(ref task_manager) = self.task_manager {
-					task_manager.wake_up_memtable();
-				}
-
-				// Retry on new memtable - must succeed
+		// A batch that is accepted here fits into an empty memtable (see
+		// `write`). When the active memtable is full it is rotated out and the
+		// batch goes to the fresh one - but `apply` runs outside the commit
+		// lock, so other committers can fill the fresh memtable before this
+		// batch gets there. One retry is therefore not enough: rotate again
+		// until the batch is in (entries of the batch that made it into an
+		// earlier memtable are harmless duplicates of the same internal keys).
+		const MAX_ROTATIONS: usize = 16;
+		let mut rotations = 0;
+		loop {
+			// Try to add to current memtable
+			let result = {
 				let active_memtable = self.core.active_memtable.read()?;
 				active_memtable.add(batch)
+			};
+
+			match result {
+				Ok(()) => return Ok(()),
+				Err(Error::ArenaFull) if rotations < MAX_ROTATIONS => {
+					rotations += 1;
+					// Arena is full - rotate memtable and retry
+					log::debug!("apply: arena full, rotating memtable");
+					#[cfg(surrealkv_verif)]
+					crate::verif::yp("apply:arena_full");
+
+					self.core.rotate_memtable()?;
+					#[cfg(surrealkv_verif)]
+					crate::verif::yp("apply:rotated");
+
+					// Schedule background flush
+					if let Some(ref task_manager) = self.task_manager {
+						task_manager.wake_up_memtable();
+					}
+				}
+				Err(e) => return Err(e),
 			}
-			Err(e) => Err(e),
 		}
 	}
 
